@@ -31,11 +31,16 @@ Generic(fs, i) == fs[i].p # "none"
 \* the field an argument/placeholder denotes: for "shadowto" ({a} with the argument  a = b) it is the
 \* OTHER field; "shadow" ({a} with  a = <expression mentioning a>) denotes no field at all
 Target(u) == IF u.how = "shadowto" THEN 3 - u.f ELSE u.f
+\* a named argument `a = ..` is what EVERY placeholder `{a}` of the literal denotes: a plain "name" use of a field whose
+\* name another use shadows is a use of that argument
+Eff(uses, k) ==
+    LET sh == {j \in 1..Len(uses) : uses[j].f = uses[k].f /\ uses[j].how \in {"shadow", "shadowto"}}
+    IN  IF uses[k].how = "name" /\ sh # {} THEN [uses[k] EXCEPT !.how = uses[CHOOSE j \in sh : TRUE].how] ELSE uses[k]
 \* bounds a literal asks for, by the property's rule
 UsesBounds(fs, uses) ==
-    {<<Target(uses[k]), uses[k].tr>> :
-        k \in {k \in 1..Len(uses) : uses[k].how \in {"name", "pos", "alias", "posalias", "shadowto"}
-                                   /\ Generic(fs, Target(uses[k]))}}
+    {<<Target(Eff(uses, k)), uses[k].tr>> :
+        k \in {k \in 1..Len(uses) : Eff(uses, k).how \in {"name", "pos", "alias", "posalias", "shadowto"}
+                                   /\ Generic(fs, Target(Eff(uses, k)))}}
 
 (***************************************************************************)
 (* Doc                                                                     *)
@@ -66,9 +71,9 @@ DebugEarlyReturn == FALSE      \* (was TRUE on the pinned tree: early return for
 \* bounded_types(): Named(name): an argument aliased `name` wins over the field of that name; it counts
 \* only if its expression is a bare identifier (then that identifier names the field)
 ImplUsesBounds(fs, uses) ==
-    {<<Target(uses[k]), uses[k].tr>> : k \in {k \in 1..Len(uses) :
-            /\ (uses[k].how \in {"name", "pos", "alias", "shadowto"} \/ (uses[k].how = "posalias" /\ PosAliasCounted))
-            /\ Generic(fs, Target(uses[k]))}}
+    {<<Target(Eff(uses, k)), uses[k].tr>> : k \in {k \in 1..Len(uses) :
+            /\ (Eff(uses, k).how \in {"name", "pos", "alias", "shadowto"} \/ (uses[k].how = "posalias" /\ PosAliasCounted))
+            /\ Generic(fs, Target(Eff(uses, k)))}}
 
 ImplBounds(c) ==
     CASE c.level \in {"struct", "variant"} ->
@@ -95,6 +100,9 @@ WellFormed(c) ==
     /\ (c.level \in {"shared_default", "shared_wrap"} => c.D # "Debug" /\ c.hasAttr)
     /\ (~c.hasAttr => c.uses = <<>>)
     /\ (\A k \in 1..Len(c.uses) : c.uses[k].how = "shadowto" => Len(c.fields) = 2)
+    \* one named argument per name (`a = .., a = ..` is rejected by format_args!)
+    /\ (\A j, k \in 1..Len(c.uses) : (j # k /\ c.uses[j].f = c.uses[k].f) =>
+            ~(c.uses[j].how \in {"shadow", "shadowto"} /\ c.uses[k].how \in {"shadow", "shadowto"}))
 
 Sufficient(c)   == DocBounds(c) \subseteq ImplBounds(c)
 NotExcessive(c) == ImplBounds(c) \subseteq DocBounds(c)
